@@ -407,6 +407,20 @@ static long vars_len(void)
     return n;
 }
 
+/* the stream behind libast's stderr: line-buffered, so one call is one message line (a FATAL line that follows an
+ * unterminated trace arrives in the middle of the piece, hence the search) */
+static ssize_t lv_msg_write(void *cookie, const char *buf, size_t n)
+{
+    static const char fatal[] = "lv:  FATAL:  ";
+    const char *hit = (const char *) memmem(buf, n, fatal, sizeof(fatal) - 1);
+    USE_VAR(cookie);
+    if (hit) {
+        size_t off = (size_t) (hit - buf);
+        while (off < n) { ssize_t w = write(2, buf + off, n - off); if (w <= 0) break; off += (size_t) w; }
+    }
+    return (ssize_t) n;
+}
+
 static void remove_work_dir(void)
 {
     if (!lv_dir[0]) return;
@@ -438,9 +452,14 @@ static void setup_dir(const char *casefile)
     setenv("TMPDIR", lv_dir, 1);
     libast_program_name = "lv";
     libast_program_version = "1.0";
-    {   /* libast's messages go to the FILE stderr; the sanitizers keep descriptor 2 */
-        FILE *nul = fopen("/dev/null", "w");
-        if (nul) { setvbuf(nul, NULL, _IONBF, 0); stderr = nul; }
+    {   /* libast's messages go to the FILE stderr and are dropped (a random file is thousands of parse errors), all but
+         * the line libast_fatal_error prints before it leaves through exit(-1): that one goes to descriptor 2, which the
+         * sanitizers keep, so that the check can tell a failed ASSERT (fatal by design at runtime debug level >= 1, e.g.
+         * len > 0 in spiftool_temp_file) from any other exit */
+        static cookie_io_functions_t io = { NULL, lv_msg_write, NULL, NULL };
+        static char line[1 << 16];
+        FILE *flt = fopencookie(NULL, "w", io);
+        if (flt) { setvbuf(flt, line, _IOLBF, sizeof(line)); stderr = flt; }
     }
     __sanitizer_install_malloc_and_free_hooks(lv_mhook, lv_fhook);
 }
